@@ -103,6 +103,17 @@ class SolveTimeUp(Exception):
     """raised from inside the objective when one run takes too long (slow sub-solvers, not a property matter)"""
 
 
+def _dfols_caller():
+    """name of the innermost dfols function, other than the evaluation plumbing, on the current stack"""
+    f = sys._getframe(2)
+    while f is not None:
+        fn = f.f_code.co_filename.replace('\\', '/')
+        if '/dfols/' in fn and f.f_code.co_name not in ('evaluate_objective', 'eval_least_squares_with_regularisation', '<lambda>'):
+            return f.f_code.co_name
+        f = f.f_back
+    return 'unknown'
+
+
 class Recorder(object):
     """the user's objective: records every call (x copy, returned residual copy, call index 1,2,...) and the
     interleaving with nsamples-callback calls (events)."""
@@ -113,6 +124,7 @@ class Recorder(object):
         self.t0 = time.process_time()      # CPU time: the guard must not depend on how busy the machine is
         self.time_limit = time_limit
         self.calls = []          # list of (x, r)
+        self.nan_sites = {}      # 0-based call index -> solver function that asked for an evaluation at a NaN point
         self.events = []         # ('f', call_index) | ('ns', returned value, (delta, rho, iter, nruns))
         self.noise = noise
         self.nrng = np.random.default_rng([int(noise['seed']), 104729]) if noise else None
@@ -122,6 +134,8 @@ class Recorder(object):
         if self.time_limit is not None and time.process_time() - self.t0 > self.time_limit:
             raise SolveTimeUp('run exceeded %.1f s of CPU time after %d evaluations' % (self.time_limit, len(self.calls)))
         xc = np.array(x, dtype=float, copy=True)
+        if np.any(np.isnan(xc)):
+            self.nan_sites[len(self.calls)] = _dfols_caller()
         r = np.asarray(self.base(xc), dtype=float)
         if self.noise is not None:
             e = self.nrng.standard_normal(self.m)
@@ -275,7 +289,7 @@ def run_solve(problem, capture_log=True, time_limit=TIME_LIMIT):
         utl.setLevel(lv2); utl.handlers = hs2
     lo_full = np.full(n, -np.inf) if lo is None else lo
     up_full = np.full(n, np.inf) if up is None else up
-    return dict(soln=soln, exc=exc, timeup=bool(exc and exc.startswith('SolveTimeUp')), calls=rec.calls, events=rec.events, log=(cap.evals if capture_log else None),
+    return dict(soln=soln, exc=exc, timeup=bool(exc and exc.startswith('SolveTimeUp')), calls=rec.calls, nan_sites=rec.nan_sites, events=rec.events, log=(cap.evals if capture_log else None),
                 lower=lo_full, upper=up_full, x0=x0, problem=problem, h=h, n=n, m=m)
 
 
